@@ -12,9 +12,17 @@ pub struct BlockHashTableColumnBuilder {}
 
 impl<E: FieldElement<BaseField = Felt>> AuxColumnBuilder<E> for BlockHashTableColumnBuilder {
     fn init_responses(&self, main_trace: &MainTrace, alphas: &[E]) -> E {
+        // the program hash is in the hasher state of any HALT row; when the executed cycles fill the
+        // trace up to the last (random) row there is no HALT row, and the hash is taken from the END
+        // row of the root block, which is then the last row of the program
         let row_index = (0..main_trace.num_rows())
             .find(|row| main_trace.get_op_code(*row) == Felt::from(HALT))
-            .expect("execution trace must include at least one occurrence of HALT");
+            .or_else(|| {
+                (0..main_trace.num_rows() - 1)
+                    .rev()
+                    .find(|row| main_trace.get_op_code(*row) == Felt::from(END))
+            })
+            .expect("execution trace must include at least one occurrence of HALT or END");
         let program_hash = main_trace.decoder_hasher_state_first_half(row_index);
 
         // Computes the initialization value for the block hash table.
